@@ -50,7 +50,8 @@ theorem splitOn_head_no_sep (sep : Char) (x : Str) (rest : Str) (h : sep ∉ x) 
 /-- **C07 (MSH-1/MSH-2 spell the set; the parser recovers it), four-character MSH-2.** -/
 theorem C07_header_roundtrip4 (f c s r e : Char) (rest : Str)
     (hws : isWS f = false) (hcr : '\r' ∉ ('M' :: 'S' :: 'H' :: f :: [c, r, e, s] ++ f :: rest))
-    (hf : f ∉ [c, r, e, s]) (hm : f ∉ ['M', 'S', 'H']) (hd : hasDup [c, r, e, s] = false) :
+    (hf : f ∉ [c, r, e, s]) (hm : f ∉ ['M', 'S', 'H']) (hd : hasDup [c, r, e, s] = false)
+    (hw : [c, r, e, s].any isWS = false) :
     ∃ fields, splitMsh ('M' :: 'S' :: 'H' :: f :: ([c, r, e, s] ++ f :: rest)) = .ok (fields, ⟨f, c, s, r, e, none⟩) := by
   unfold splitMsh
   simp only [hws, Bool.false_eq_true, if_false]
@@ -68,7 +69,8 @@ theorem C07_header_roundtrip4 (f c s r e : Char) (rest : Str)
     simp only [List.cons_append, List.nil_append] at this h2 ⊢
     rw [this, h2]
   rw [hsplit]
-  simp [hd]
+  simp only [List.getD_cons_succ, List.getD_cons_zero, hd, hw, Bool.false_eq_true, if_false]
+  exact ⟨_, rfl⟩
 
 /-- non-vacuity and the 2.7 case, kernel-evaluated on concrete headers -/
 example : (splitMsh "MSH!@$/%!A!B!C!D!2020!!ADT@A01!1!P!2.5".toList).map (·.2) = .ok ⟨'!', '@', '%', '$', '/', none⟩ := by decide
